@@ -57,6 +57,8 @@ var acts = map[string]actInfo{
 	"s:mn": {'A', false, false, `victim.GetMp()["zz"] = 42`},
 	"s:md": {'A', false, false, `delete(victim.GetMp(), "a")`},
 	"s:bn": {'A', false, false, `victim.GetPBx().N = 42`},
+	"s:ia": {'A', false, false, `var i any = victim.GetPt(); i.(*victim.T).N = 42`},
+	"s:df": {'A', false, false, `defer func() { victim.GetPt().N = 42 }()`},
 	// --- attacker statement on the victim's exported variables
 	"s:vx": {'A', false, false, `victim.X = 42`},
 	"s:vi": {'A', false, false, `victim.X++`},
